@@ -74,6 +74,7 @@ def run(sid, checks):
             print(c, results[c]["exit"], results[c]["violations"], det[:1])
     finally:
         sh("git -C /repo checkout -- .")
+        sh("git -C /repo clean -fdq")  # files the patch created (ignored build output stays)
     mp = os.path.join(dst, "meta.json")
     meta = json.load(open(mp)) if os.path.exists(mp) else {}
     meta.setdefault("checks_run", {}).update(results)
